@@ -763,6 +763,26 @@ func c13(r *hx.Run) {
 				e.tcb = append(e.tcb[:i:i], e.tcb[i+1:]...)
 			})
 			g.with("tcb-19", expFree, sh, 1, func(v *c13vals, e *c13ext) { e.tcb = append(e.tcb, c13atv(c13sub(2, 19), dInt(1))) })
+			// one or more elements with ids the schema does not define, in FRONT of / between the eighteen defined ones: whatever the
+			// library makes of a TCB sequence that is too long, it does not hand out values other than the encoded ones
+			for _, n := range []int{1, 2, 5} {
+				n := n
+				g.with("tcb-unknown-elements-in-front", expErrOrExact, false, 1, func(v *c13vals, e *c13ext) {
+					var front [][]byte
+					for k := 0; k < n; k++ {
+						front = append(front, c13atv(c13sub(2, 30+k), dInt(int64(rng.UintN(200)))))
+					}
+					e.tcb = append(front, e.tcb...)
+				})
+				g.with("tcb-unknown-elements-in-between", expErrOrExact, false, 1, func(v *c13vals, e *c13ext) {
+					at := 1 + int(rng.UintN(uint(len(e.tcb)-1)))
+					var mid [][]byte
+					for k := 0; k < n; k++ {
+						mid = append(mid, c13atv(c13sub(2, 40+k), dInt(int64(rng.UintN(200)))))
+					}
+					e.tcb = append(append(append([][]byte{}, e.tcb[:at]...), mid...), e.tcb[at:]...)
+				})
+			}
 			g.with("tcb-19-duplicate", expFree, sh, 1, func(v *c13vals, e *c13ext) { e.tcb = append(e.tcb, c13atv(c13sub(2, 1+int(rng.UintN(18))), dInt(int64(rng.UintN(256))))) })
 			g.with("tcb-unknown-oid", expFree, sh, 1, func(v *c13vals, e *c13ext) {
 				oids := [][]int{c13sub(2, 19), c13sub(2, 0), c13sub(2), c13sub(2, 1, 1), c13sub(3, 1), {1, 2, 840, 113741, 1, 13, 2, 2, 1}}
